@@ -6,7 +6,7 @@
    The per-protocol send->receive round trips are theorems about the packet models of Model.v
    (sender's datagram = what the node passes to sendto; receiver = node with one registered handler). *)
 From OlaBase Require Import Bytes.
-From C07 Require Import Gen Model ModelNet2 ModelStream ModelMulti ModelHist ModelExt ListLemmas RleProofs RleMore NetProofs NetProofs2 StreamProofs MultiProofs HistProofs ExtProofs StreamProofs2 ExtProofs2.
+From C07 Require Import Gen Model ModelNet2 ModelStream ModelMulti ModelHist ModelExt ModelMerge ListLemmas RleProofs RleMore NetProofs NetProofs2 StreamProofs MultiProofs HistProofs ExtProofs StreamProofs2 ExtProofs2 MergeProofs.
 Local Open Scope N_scope.
 
 (* the constants the statements below spell out as literals *)
@@ -293,6 +293,51 @@ Proof.
 Qed.
 Print Assumptions c07_empty_frames.
 
+(* ===== wave 5 ===== *)
+(* Art-Net output port with its two merge-source slots, LTP or HTP merging: whenever every other
+   tracked sender has been silent for longer than MERGE_TIMEOUT (10 s) - or there is none - the
+   frame of the sender that is still transmitting is what the port's buffer holds afterwards, exactly,
+   whichever slot that sender occupies.  The slots never hold one sender twice (invariant from the
+   empty port onwards). *)
+Theorem c07_artnet_remaining_sender : forall ltp s addr now d,
+  wf_slots s -> others_stale s addr now ->
+  exists s', an_update ltp s addr now d = (s', Some d).
+Proof. exact an_update_remaining. Qed.
+Print Assumptions c07_artnet_remaining_sender.
+
+Theorem c07_artnet_slots_wf : forall ltp s addr now d,
+  wf_slots (None, None) /\ (wf_slots s -> wf_slots (fst (an_update ltp s addr now d))).
+Proof.
+  intros. split; [intros a b H; discriminate H|apply an_update_wf].
+Qed.
+Print Assumptions c07_artnet_slots_wf.
+
+(* E1.31, both revisions: a long-lived sender whose history mixes sends (any universe, priority, frame
+   of 0-512 slots) with SetSourceName / StartStream calls on any universe at any point: the calls never
+   disturb a running stream (the per-universe sequence continues), so the handler of hu still observes
+   exactly the frames sent to hu. *)
+Theorem c07_e131_sender_script : forall rev2 cid name hu ip ops old,
+  Forall (fun op => match op with
+                    | SSend u prio f => 1 <= u /\ u <= 65534 /\ prio <= 200 /\ len f <= 512
+                    | STouch _ => True end) ops ->
+  exists m' st', send_script rev2 cid name hu ip ops [] (fresh_rx old) = (expect_script hu ops old, m', st').
+Proof.
+  intros. apply send_script_ok; try assumption.
+  - intros u s L. discriminate L.
+  - exact I.
+Qed.
+Print Assumptions c07_e131_sender_script.
+
+(* ShowNet, one long-lived sender: any sequence of sends, each to any universe 0..7 with any node name
+   (SetName between sends) and any frame - identical frames to different universes included; the
+   packet counter counts every datagram.  The handler of universe hu sees exactly the sends addressed
+   to hu, each written at offset 0 over its previous contents. *)
+Theorem c07_shownet_sender_history : forall ip hu ops seq b,
+  Forall (fun op : N * list N * list N => let '(u, _, f) := op in u < 8 /\ 1 <= len f /\ len f <= 512) ops ->
+  shownet_send_hist ip hu ops seq b = shownet_expect_hist hu ops b.
+Proof. intros. apply shownet_send_hist_ok. assumption. Qed.
+Print Assumptions c07_shownet_sender_history.
+
 (* ---- non-vacuity and the pre-fix failures as concrete evaluations of the (fixed) model *)
 Definition ramp (n : nat) : list N := map (fun i => N.of_nat ((i * 7 + 3) mod 256)) (seq 0 n).
 (* 128 distinct slots: the unfixed encoder emitted the count byte 0x80 here *)
@@ -366,3 +411,16 @@ Example ex_hist_rev2 :
   | (obs, _, _) => obs = [(true, Some [1; 2]); (false, Some [1; 2]); (true, Some []); (true, Some [3])]
   end.
 Proof. vm_compute. reflexivity. Qed.
+(* sender A (slot 0) goes silent, B keeps sending: after the timeout B's frame is reproduced exactly *)
+Example ex_remaining_sender :
+  let s1 := fst (an_update false (None, None) 2 0 [200; 200; 200; 200]) in
+  let s2 := fst (an_update false s1 3 3 [1; 2; 3; 4]) in
+  snd (an_update false s1 3 3 [1; 2; 3; 4]) = Some [200; 200; 200; 200] /\
+  others_stale s2 3 15 /\ wf_slots s2 /\
+  snd (an_update false s2 3 15 [1; 2; 3; 4]) = Some [1; 2; 3; 4].
+Proof.
+  cbv zeta. split; [vm_compute; reflexivity|]. split.
+  - intros x [H|H]; vm_compute in H; inversion H; subst; vm_compute; [right; reflexivity|left; reflexivity].
+  - split; [|vm_compute; reflexivity].
+    intros a b Ha Hb. vm_compute in Ha, Hb. inversion Ha; inversion Hb; subst. vm_compute. discriminate.
+Qed.
